@@ -23,7 +23,7 @@ from pyvc import models as M
 from pyvc.engine import ProgExc, Unsupported
 from pyvc.models import FmtPiece, SymStr
 from pyvc.spec import Registry
-from pyvc.values import NativeMethod, Obj, Opaque, PList, SArr, Sym, fresh_name, to_z3, zint
+from pyvc.values import NativeMethod, Obj, Opaque, PDict, PList, SArr, Sym, fresh_name, to_z3, zint
 
 DEPENDS = ["C18"]  # read_swc relies on the verified contracts of reset_index_ / mark_roots_as_somas_
 
@@ -56,6 +56,7 @@ RLINE = z3.Function("row_line", _I, _I, _I)
 CCNT = z3.Function("comments_before", _I, _I, _I)
 CLINE = z3.Function("comment_line", _I, _I, _I)
 UNREADABLE = z3.Function("source_unreadable", _I, _B)
+ABSPATH = z3.Function("abspath", _I, _I)
 
 # reference grammar, written from the SWC format / property statement (NOT read from the source)
 REF_FLOAT = r"([+-]?(?:\d+(?:[.]\d*)?(?:[eE][+-]?\d+)?|[.]\d+(?:[eE][+-]?\d+)?))"
@@ -710,44 +711,116 @@ def register_read(R):
     # the same function is registered under an alias that resolves to the same source (extract skips "<locals>").
     FROM_SWC = f"{TREE}:Tree.<locals>.from_swc"
 
-    def builder(S):
-        """stand-in for `cls`: a class whose from_data_frame is abstract (Tree.__init__/padding are C03/C09 matter)"""
-        def from_data_frame(eng, recv, args, kwargs):
-            eng.assumptions.add("assumed(local to Tree.from_swc): cls.from_data_frame is abstract; its call is logged")
-            eng.ghost.setdefault("built", []).append(dict(args=list(args), kwargs=dict(kwargs)))
-            return Opaque(z3.Const(fresh_name("tree"), _I), {})
+    def abspath_model(eng, args, kwargs):
+        """os.path.abspath of an abstract path: an abstract string determined by the path (nothing else is assumed)"""
+        (pth,) = args
+        if isinstance(pth, Opaque):
+            eng.assumptions.add("os-model: os.path.abspath(path) of an abstract path is an abstract string abspath(path)")
+            return AStr(ABSPATH(pth.z))
+        import os
 
-        return S.opaque({"from_data_frame": from_data_frame}, "cls")
+        return os.path.abspath(pth)
 
-    def from_setup(S):
-        return dict(cls=builder(S), swc_file=S.opaque({}, "swc_file"))
+    def from_setup(kind, **options):
+        def f(S):
+            import os
+
+            from pyvc import ext_C01
+            from swcgeom.core.tree import Tree
+
+            ext_C01.install()
+            M.EXTRA_MODELS[os.path.abspath] = abspath_model
+            src = S.opaque({"__isinstance__": (str,)} if kind == "path" else {}, "swc_file")
+            return dict(cls=Tree, swc_file=src, g_kind=kind, kwargs=PDict(dict(options)))
+
+        return f
 
     def bad_source(v):
         f = v["swc_file"].z
         j = z3.Int(fresh_name("j"))
         return z3.Or(z3.Exists([j], z3.And(j >= 0, j < NL(f), z3.Not(line_ok(0, f, j)))), UNREADABLE(f))
 
-    def from_built(E, v, o):
-        rd, built = E.ghost.get("read", []), E.ghost.get("built", [])
-        cs = calls(E, "read_swc")
-        if len(rd) != 1 or len(built) != 1 or len(cs) != 1 or cs[0]["swc_file"] is not o["swc_file"]:
+    def the_read(E, o):
+        rd, cs = E.ghost.get("read", []), calls(E, "read_swc")
+        if len(rd) != 1 or len(cs) != 1 or cs[0]["swc_file"] is not o["swc_file"]:
+            return None
+        return rd[0]
+
+    READ_DEFAULTS = dict(extra_cols=None, fix_roots=False, sort_nodes=False, reset_index=True, encoding="utf-8", names=None)
+
+    def from_read_once(E, v, o):
+        """one read_swc call, on the source given, with exactly the caller's options (everything else at read_swc's defaults)"""
+        if the_read(E, o) is None:
             return False
-        b = built[0]
-        return (len(b["args"]) == 1 and b["args"][0] is rd[0]["df"] and b["kwargs"].get("comments") is rd[0]["comments"]
-                and b["kwargs"].get("source") == "" and set(b["kwargs"]) == {"source", "comments"})
+        a, want = calls(E, "read_swc")[0], dict(READ_DEFAULTS)
+        want.update(o["kwargs"].items)
+        return all(a[k] == w if not isinstance(w, PList) else a[k] is w for k, w in want.items())
+
+    def tree_cols(v):
+        from swcgeom.core.tree import Tree
+
+        t = v["result"]
+        if not isinstance(t, Obj) or t.cls is not Tree:
+            return None
+        nd = t.fields.get("ndata")
+        return nd.items if nd is not None and getattr(nd, "items", None) is not None else None
+
+    def from_columns(E, v, o):
+        """every column of the tree is the corresponding column of the table read_swc returned: same length (= number of
+        rows of the table), same value at every row, in row order"""
+        rd, nd = the_read(E, o), tree_cols(v)
+        if rd is None or nd is None or list(nd) != NCOLS:
+            return False
+        df, out = rd["df"], []
+        for c in NCOLS:
+            a, g = nd[c], df.cols[c]
+            if not isinstance(a, SArr) or a.kind != g.kind:
+                return False
+            j = z3.Int(fresh_name("j"))
+            out.append(z3.And(a.nz() == zint(df.n), z3.ForAll([j], z3.Implies(z3.And(j >= 0, j < zint(df.n)), z3.Select(a.arr, j) == z3.Select(g.arr, j)))))
+        return z3.And(*out)
+
+    def from_dtypes(E, v, o):
+        import numpy as np
+
+        nd = tree_cols(v)
+        return nd is not None and all(isinstance(nd[c], SArr) and nd[c].dtype == np.dtype("int32" if j in (0, 1, 6) else "float32") for j, c in enumerate(NCOLS))
+
+    def from_comments(E, v, o):
+        rd = the_read(E, o)
+        if rd is None or tree_cols(v) is None:
+            return False
+        cm, c0 = v["result"].fields.get("comments"), rd["comments"]
+        if not isinstance(cm, PList) or cm.items is not None or cm is c0:
+            return False
+        return z3.And(zint(cm.n) == zint(c0.n), cm.cols[0] == c0.cols[0])
+
+    def from_source(E, v, o):
+        if tree_cols(v) is None:
+            return False
+        src = v["result"].fields.get("source")
+        if o["g_kind"] == "path":
+            return isinstance(src, AStr) and src.z.eq(ABSPATH(o["swc_file"].z))
+        return src == ""
 
     R.add(
         FROM_SWC,
         prop="C02",
-        setup=from_setup,
+        variants={"stream-source": from_setup("stream"), "path-source": from_setup("path"),
+                  "stream-source,sort_nodes=True": from_setup("stream", sort_nodes=True),
+                  "path-source,reset_index=False,fix_roots=somas": from_setup("path", reset_index=False, fix_roots="somas")},
         requires=[("file-has-a-root-row", pre_root), ("row-ids-are-unsigned(regex fact: the id group is [0-9]+)", pre_ids)],
         raises={"ValueError": ("only-when-the-source-is-bad-or-unreadable", lambda E, v, o: bad_source(v))},
         ensures=[
             ("a-tree-is-returned-only-for-a-clean-readable-source(no-error-swallowed)", lambda E, v, o: z3.Not(bad_source(v))),
-            ("tree-is-built-from-exactly-the-table-and-comments-read", from_built),
-            ("something-is-returned", lambda E, v, o: v["result"] is not None),
+            ("read_swc-is-called-exactly-once-on-the-source-given-with-the-caller's-options", from_read_once),
+            ("every-column-of-the-tree-equals-the-corresponding-column-of-the-table-read(n-nodes=#rows,row-order)", from_columns),
+            ("int-columns-stored-as-int32-float-columns-as-float32", from_dtypes),
+            ("comments-are-the-comments-read-in-order-in-a-list-of-the-tree's-own", from_comments),
+            ("source-is-the-absolute-path-for-a-path-source-else-empty", from_source),
         ],
-        notes="any exception class read_swc may raise (ValueError for a bad file, OSError for an unreadable one) must leave as ValueError",
+        notes="any exception class read_swc may raise (ValueError for a bad file, OSError for an unreadable one) must leave as ValueError; "
+              "Tree.from_data_frame / Tree.__init__ / padding1d / DictSWC.__init__ are INLINED (real code), read_swc enters through its contract",
     )
 
 
